@@ -32,7 +32,7 @@ THEOREMS = [
 LEAN_MODULES = ["PorepyVerif.C34.Props"]
 AUDIT = "PorepyVerif/C34/Audit.lean"
 DRIVER = "PorepyVerif/C34/Driver.lean"
-N = {"quick": 500, "thorough": 6000}
+N = {"quick": 500, "thorough": 10000}
 KEY_F4 = "uniquify-norm-anchor-splits-cluster"
 RULE = ("four case kinds. uniquify (45%) / uniquify_points (15%): 0-9 clusters of 1-4 points in dimension 1-3, cluster diameter < 0.3*tol, "
         "points of different clusters > 3*tol apart (checked in exact arithmetic, rejected otherwise), cluster centres on spheres whose "
